@@ -21,7 +21,8 @@ BlocksProblems(ev) ==
   \cup (IF \A k \in 1..Len(ev.truncs) : ev.truncs[k].off \in BlockEnds(ev.n, ev.b) THEN {} ELSE {"BlockCutNotDetected"})
 
 FileProblems(ev) ==
-  (IF ev.ct # 0 \/ (ev.size = FileSize(16 + ev.n, ProdBlock) /\ ev.rec = ev.size) THEN {} ELSE {"FileSizeFormula"})
+  (IF ev.ct # 0 \/ (ev.size = (IF ev.ver = 1 THEN V1FileSize(16 + ev.n) ELSE FileSize(16 + ev.n, ProdBlock)) /\ ev.rec = ev.size)
+     THEN {} ELSE {"FileSizeFormula"})
   \cup (IF ev.ct = 0 \/ ev.rec = ev.size THEN {} ELSE {"RecordedSizeDiffers"})
   \cup (IF ev.readok THEN {} ELSE {"ReadBackDiffers"})
   \cup (IF ev.vok THEN {} ELSE {"ValidatorRefusesWriterOutput"})
